@@ -180,6 +180,11 @@ func (p *regExpParser) scanEscape(inClass bool) {
 				// Not a valid digit
 				break
 			}
+			if size == 3 || value*8+digit > 0o377 {
+				// An octal escape is at most three digits and at most \377,
+				// what follows is an ordinary character
+				break
+			}
 			value = value*8 + digit
 			p.read()
 			size++
